@@ -242,7 +242,7 @@ def documents(ctx: Ctx, thorough):
     # ... and on the intermediate element (they live inside one chunk with lazy=1 and span chunks with lazy=2)
     for kind, level in (("key", "outer"), ("unique", "outer"), ("key", "inner")):
         consts = {"NF": 1, "KeyKind": f'"{kind}"', "Level": f'"{level}"', "MaxRows": 3, "MaxScopes": 2,
-                  "RowKinds": '{"k", "f", "i", "p"}'}
+                  "RowKinds": '{"k", "f", "i", "p"}', "IdVer": '"1.0"'}
         r = ctx.tlc("Identity", "Identity.cfg", constants=consts, tag=f"docs-{kind}-{level}", workers=4)
         recs = [x for x in r.json_records() if c08.canonical(x)]
         step = 1 if thorough else 4
